@@ -36,19 +36,19 @@ def run(res, replay=None):
             res.nontriv((k_in,))
         for i, v in enumerate(vols):
             if not (v > 0.0) or v != v or v == float("inf"):
-                res.violation("C02:non-positive-measure", f"cell {i} has measure {v} (family {inp['family']} dim {dim} periodic {inp['periodic']})", dict(ctx, cell=i))
+                res.violation("C02:non-positive-measure" + geo.mismatch_class(rec), f"cell {i} has measure {v} (family {inp['family']} dim {dim} periodic {inp['periodic']})", dict(ctx, cell=i))
                 break
         tot = sum(vols)
         n = len(vols)
         worst = max(worst, abs(tot - box) / box)
         if not (abs(tot - box) <= max(n, 10) * tol["vol_tol"]):
-            res.violation("C02:sum-not-box", f"cell measures sum to {tot} but the box measure is {box} (family {inp['family']} dim {dim} periodic {inp['periodic']}, n = {n})",
+            res.violation("C02:sum-not-box" + geo.mismatch_class(rec), f"cell measures sum to {tot} but the box measure is {box} (family {inp['family']} dim {dim} periodic {inp['periodic']}, n = {n})",
                           dict(ctx, total=tot, box=box))
         for gi, m in rec["model"].items():
             if m is None:
                 continue
             if not (abs(vols[gi] - float(m["volume"])) <= tol["vol_tol"]):
-                res.violation("C02:cell-measure", f"cell {gi} measure {vols[gi]} vs exact {float(m['volume'])}", dict(ctx, cell=gi))
+                res.violation("C02:cell-measure" + geo.mismatch_class(rec), f"cell {gi} measure {vols[gi]} vs exact {float(m['volume'])}", dict(ctx, cell=gi))
                 break
         if k_in < 1:
             res.sample({"input": T.inp_json(inp), "sum": tot, "box": box})
